@@ -151,3 +151,80 @@ Example C10_consumes_input_witness :
   exists f s', read_file [115; 116; 114; 117; 99; 116; 32; 65; 32; 123; 125; 10]%N false = POk f s' /\ length (rs s') = 126 /\ structs f <> [].
 Proof. eexists; eexists. vm_compute. repeat split. discriminate. Qed.
 Print Assumptions C10_consumes_input.
+
+(* "... and never silently drops part of a schema": for EVERY input, when a File is returned the list of Next() results is
+   used ++ [a `false` with no error] ++ left, where no result the parser was given carried a tokenizer error (front/TokSticky.v:
+   every builder only appends to the error list and Next() removes nothing but the end-of-input marker it has just recorded,
+   so an error, once there, is still there at the `false` the parser returns on, which then fails it) and `left` holds only
+   `false` answers.  This is the universal form of the first defect repaired under this property (tokenizer errors between
+   definitions were dropped: c7a5e63). *)
+Require Import Bebop.front.TokSticky.
+Definition C10_no_error_dropped_statement : Prop :=
+  forall input fails f s', read_file input fails = POk f s' ->
+    exists used, rs (st0 input fails) = used ++ NF [] :: rs s' /\ Forall (fun y => ~ dirty y) used /\ Forall is_nf (rs s').
+Theorem C10_no_error_dropped : C10_no_error_dropped_statement.
+Proof. exact read_file_no_error_dropped. Qed.
+(* not vacuous: a stray byte after a complete definition is an error (it used to be accepted), and so is an unterminated comment *)
+Example C10_no_error_dropped_witness :
+  read_file [115; 116; 114; 117; 99; 116; 32; 65; 32; 123; 125; 10; 35]%N false = PErr /\
+  read_file [115; 116; 114; 117; 99; 116; 32; 65; 32; 123; 125; 10; 47; 42]%N false = PErr /\
+  (exists f s, read_file [115; 116; 114; 117; 99; 116; 32; 65; 32; 123; 125; 10]%N false = POk f s).
+Proof. split; [vm_compute; reflexivity|split; [vm_compute; reflexivity|eexists; eexists; vm_compute; reflexivity]]. Qed.
+Print Assumptions C10_no_error_dropped.
+
+(* The second half of that clause on the class of schemas the inversion theorems cover (front/Schema.v): whatever text of a
+   schema dl ReadFile is given, in any layout, the same text with the text of one more definition d after it is read to a
+   File that holds everything the first held, in the same order, followed by what d states. *)
+Require Import Bebop.front.LexInv Bebop.front.ParseInv Bebop.front.FmtInv Bebop.front.MsgInv Bebop.front.GenInv Bebop.front.Items Bebop.front.TyInv Bebop.front.TyMsg Bebop.front.TyItems Bebop.front.TyUnion Bebop.front.TyUnionItem Bebop.front.TyOpcode Bebop.front.TyEnum Bebop.front.TyDep Bebop.front.TyDoc Bebop.front.TyDec Bebop.front.TyImport Bebop.front.Schema.
+Definition C10_append_schema_statement : Prop :=
+  forall dl d lay1 lay2 tail,
+    Forall sdefn_ok dl -> sdefn_ok d ->
+    map snd lay1 = schema_lexemes dl -> map snd lay2 = schema_lexemes [d] ->
+    Forall (fun p => hws (fst p)) (lay1 ++ lay2) -> sep_ok lay1 -> sep_ok (lay1 ++ lay2) -> hws tail ->
+    exists f1 f2 s1 s2,
+      read_file (render lay1 []) false = POk f1 s1 /\
+      read_file (render lay1 (render lay2 tail)) false = POk f2 s2 /\
+      structs f2 = structs f1 ++ structs_of d /\ messages f2 = messages f1 ++ messages_of d /\
+      enums f2 = enums f1 ++ enums_of d /\ unions f2 = unions f1 ++ unions_of d /\ imports f2 = imports f1 ++ imports_of d /\
+      consts f2 = consts f1 /\ gopackage f2 = gopackage f1.
+Theorem C10_append_schema : C10_append_schema_statement.
+Proof.
+  intros dl d lay1 lay2 tail Hdl Hd H1 H2 Hws Hsep1 Hsep Ht.
+  assert (Hall : Forall sdefn_ok (dl ++ [d])) by (apply Forall_app; split; [exact Hdl|constructor; [exact Hd|constructor]]).
+  assert (Hlex : map snd (lay1 ++ lay2) = schema_lexemes (dl ++ [d])).
+  { rewrite map_app, H1, H2. unfold schema_lexemes, xlex. rewrite !map_app, flat_map_app. reflexivity. }
+  destruct (schema_laws (dl ++ [d]) (lay1 ++ lay2) tail Hall Hlex Hws Hsep Ht) as (y & _ & _ & _ & _ & (s2 & R2)).
+  rewrite render_app in R2.
+  assert (Hws1 : Forall (fun p => hws (fst p)) lay1) by (apply Forall_app in Hws; tauto).
+  destruct (schema_laws dl lay1 [] Hdl H1 Hws1 Hsep1 (Forall_nil _)) as (y1 & _ & _ & _ & _ & (s1 & R1)).
+  destruct (schema_file_spec (dl ++ [d])) as (A & B & C & D & E & F & G).
+  destruct (schema_file_spec dl) as (A1 & B1 & C1 & D1 & E1 & F1 & G1).
+  rewrite flat_map_app in A, B, C, D, F. cbn [flat_map] in A, B, C, D, F. rewrite app_nil_r in A, B, C, D, F.
+  exists (schema_file dl), (schema_file (dl ++ [d])), s1, s2.
+  rewrite A, B, C, D, E, F, G, A1, B1, C1, D1, E1, F1, G1. repeat split; assumption.
+Qed.
+Print Assumptions C10_append_schema.
+Lemma Forall_map_x (dl : list sdefn) : Forall sdefn_ok dl -> Forall xel_ok (map xel_of dl).
+Proof. induction 1; cbn [map]; constructor; [now apply xel_of_ok|assumption]. Qed.
+(* the hypotheses are met: `struct S {}` in its canonical layout followed by a message with one field *)
+Example C10_append_schema_witness :
+  let S := {| ic := 83%N; itl := [] |} in let M := {| ic := 77%N; itl := [] |} in
+  let i32 := {| ic := 105%N; itl := [110; 116; 51; 50]%N |} in let x := {| ic := 120%N; itl := [] |} in
+  let one := {| xc := 49%N; xds := []; xv := 1%N |} in
+  let dl := [SStruct S [] 0] in let d := SMessage M [(one, (LSimple i32 0, x))] 0 in
+  let lay1 := glayout (map xel_of dl) in let lay2 := glayout (map xel_of [d]) in
+  Forall sdefn_ok dl /\ sdefn_ok d /\ map snd lay1 = schema_lexemes dl /\ map snd lay2 = schema_lexemes [d] /\
+  Forall (fun p => hws (fst p)) (lay1 ++ lay2) /\ sep_ok lay1 /\ sep_ok (lay1 ++ lay2) /\
+  (exists f s, read_file (render lay1 (render lay2 [])) false = POk f s /\ length (messages f) = 1 /\ length (structs f) = 1).
+Proof.
+  cbv zeta.
+  assert (Hok1 : Forall sdefn_ok [SStruct {| ic := 83%N; itl := [] |} [] 0]) by (repeat constructor; cbn; intuition discriminate).
+  assert (Hok2 : Forall sdefn_ok [SMessage {| ic := 77%N; itl := [] |} [({| xc := 49%N; xds := []; xv := 1%N |}, (LSimple {| ic := 105%N; itl := [110; 116; 51; 50]%N |} 0, {| ic := 120%N; itl := [] |}))] 0])
+    by (repeat constructor; cbn; intuition discriminate).
+  split; [exact Hok1|]. split; [inversion Hok2; assumption|].
+  assert (Hx1 : Forall xel_ok (map xel_of _)) by (eapply Forall_map_x; exact Hok1).
+  assert (Hx2 : Forall xel_ok (map xel_of _)) by (eapply Forall_map_x; exact Hok2).
+  split; [exact (glayout_lex _ Hx1)|]. split; [exact (glayout_lex _ Hx2)|].
+  split; [vm_compute; repeat constructor|]. split; [exact (glayout_sep _ Hx1)|]. split; [vm_compute; repeat split; try exact I; first [left; intros E0; discriminate E0|right; eexists; eexists; reflexivity]|].
+  eexists; eexists. vm_compute. repeat split.
+Qed.
